@@ -547,9 +547,42 @@ func ruleSoftBreakKept(w *World, r *Report) {
 		}
 		return namedOf(cal.Signature.Recv().Type()) == eaT && isBool(c.Type())
 	}
+	// helperSummary: a module function with a bool result all of whose returns are the constant true or the predicate
+	// (an extracted "does this soft break stay?" helper): its false result can only come from the width predicate.
+	var helperSummary func(fn *ssa.Function, depth int) bool
+	helperSummary = func(fn *ssa.Function, depth int) bool {
+		if fn == nil || !w.InModule(fn) || fn.Blocks == nil || depth > 2 || fn.Signature.Results().Len() != 1 || !isBool(fn.Signature.Results().At(0).Type()) {
+			return false
+		}
+		hasPred := false
+		for _, b := range fn.Blocks {
+			ret, ok := b.Instrs[len(b.Instrs)-1].(*ssa.Return)
+			if !ok {
+				continue
+			}
+			for _, leaf := range phiLeaves(ret.Results[0]) {
+				if bv, ok := constBool(leaf); ok && bv {
+					continue
+				}
+				if isPredicate(leaf) {
+					hasPred = true
+					continue
+				}
+				if c, ok := leaf.(*ssa.Call); ok && helperSummary(c.Common().StaticCallee(), depth+1) {
+					hasPred = true
+					continue
+				}
+				return false
+			}
+		}
+		return hasPred
+	}
 	// predicateOnly: v is the predicate call, or a phi whose other operands are all constant true
 	predicateOnly := func(v ssa.Value) bool {
 		if isPredicate(v) {
+			return true
+		}
+		if c, ok := v.(*ssa.Call); ok && helperSummary(c.Common().StaticCallee(), 0) {
 			return true
 		}
 		ph, ok := v.(*ssa.Phi)
@@ -700,14 +733,45 @@ func ruleEscapedSpaceExact(w *World, r *Report) {
 					continue
 				}
 				tb := iff.Block().Succs[0]
-				ni, ok := tb.Instrs[len(tb.Instrs)-1].(*ssa.If)
-				if !ok {
-					r.Unknown(key, w.InstrPos(u), "the option's true arm is not followed by a byte test")
+				for hops := 0; hops < 4 && len(tb.Succs) == 1; hops++ { // look through empty forwarding blocks
+					pure := true
+					for _, x := range tb.Instrs {
+						switch x.(type) {
+						case *ssa.Jump, *ssa.DebugRef:
+						default:
+							pure = false
+						}
+					}
+					if !pure {
+						break
+					}
+					tb = tb.Succs[0]
+				}
+				var testCond ssa.Value
+				var testAt ssa.Instruction
+				if ni, ok := tb.Instrs[len(tb.Instrs)-1].(*ssa.If); ok {
+					testCond, testAt = ni.Cond, ni
+				} else if _, isJ := tb.Instrs[len(tb.Instrs)-1].(*ssa.Jump); isJ && len(tb.Succs) == 1 {
+					// `flag && test` evaluated as a value (e.g. a switch case): the true arm computes the test and jumps to a
+					// join whose phi — false from the flag's false edge, the test from here — is then branched on
+					join := tb.Succs[0]
+					if ji, ok := join.Instrs[len(join.Instrs)-1].(*ssa.If); ok {
+						if ph, ok := ji.Cond.(*ssa.Phi); ok && ph.Block() == join {
+							for pi, pr := range join.Preds {
+								if pr == tb {
+									testCond, testAt = ph.Edges[pi], ji
+								}
+							}
+						}
+					}
+				}
+				if testCond == nil {
+					r.Unknown(key, w.InstrPos(u), fmt.Sprintf("the option's true arm (block %d %s) is not followed by a byte test", tb.Index, tb.Comment))
 					continue
 				}
 				// find the byte under test: a load of source[i]
 				var base, idx ssa.Value
-				operandsClosure(ni.Cond, func(v ssa.Value) bool {
+				operandsClosure(testCond, func(v ssa.Value) bool {
 					if l, ok := v.(*ssa.UnOp); ok && l.Op == token.MUL {
 						if ia, ok := l.X.(*ssa.IndexAddr); ok && isByteSlice(ia.X.Type()) {
 							base, idx = ia.X, stripConv(ia.Index)
@@ -716,7 +780,7 @@ func ruleEscapedSpaceExact(w *World, r *Report) {
 					return true
 				})
 				if base == nil {
-					r.Unknown(key, w.InstrPos(ni), "no byte of the input is tested after the option")
+					r.Unknown(key, w.InstrPos(testAt), "no byte of the input is tested after the option")
 					continue
 				}
 				env := &byteEnv{w: w, base: base, idx: idx}
@@ -725,7 +789,7 @@ func ruleEscapedSpaceExact(w *World, r *Report) {
 				undecided := false
 				for c := 0; c < 256; c++ {
 					env.vals = map[int]int{0: c}
-					v, known := env.eval(ni.Cond)
+					v, known := env.eval(testCond)
 					if !known {
 						undecided = true
 						break
@@ -737,11 +801,11 @@ func ruleEscapedSpaceExact(w *World, r *Report) {
 				}
 				switch {
 				case undecided:
-					r.Unknown(key, w.InstrPos(ni), "the byte test after the option cannot be evaluated")
+					r.Unknown(key, w.InstrPos(testAt), "the byte test after the option cannot be evaluated")
 				case cnt == 1 && acc[' ']:
-					r.OK(key, w.InstrPos(ni), "the option only affects backslash + U+0020")
+					r.OK(key, w.InstrPos(testAt), "the option only affects backslash + U+0020")
 				default:
-					r.Bad(key, w.InstrPos(ni), "with the option on, the writer swallows a backslash followed by any of "+byteSetString(acc)+", not only U+0020: input without backslash-space renders differently with the CJK extension")
+					r.Bad(key, w.InstrPos(testAt), "with the option on, the writer swallows a backslash followed by any of "+byteSetString(acc)+", not only U+0020: input without backslash-space renders differently with the CJK extension")
 				}
 			}
 		}
